@@ -19,13 +19,20 @@ one() {
   prop=$1; c=$2; R=$3
   W=$(mktemp -d /tmp/rv-XXXXXX); rmdir $W
   git -C /repo worktree add -q --detach $W HEAD
+  NOTE=""
   if ! git -C $W revert --no-commit $c >/dev/null 2>&1; then
-    echo "| $c | $prop | REVERT-CONFLICTS (a later fix: builds on it) | | |" > $R/$prop-$c
-    git -C /repo worktree remove --force $W; exit 0
+    # a later fix builds on this one: revert the later commits that touch the same files first (newest first)
+    git -C $W revert --abort >/dev/null 2>&1; git -C $W reset -q --hard HEAD
+    LATER=$(git -C $W log --format=%h $c..HEAD -- $(git -C $W show --format= --name-only $c))
+    if ! git -C $W revert --no-commit $LATER $c >/dev/null 2>&1; then
+      echo "| $c | $prop | REVERT-CONFLICTS | | |" > $R/$prop-$c
+      git -C /repo worktree remove --force $W; exit 0
+    fi
+    NOTE=" (reverted together with the later $(echo $LATER | tr '\n' ' ')that builds on it)"
   fi
   O=$(VERIF_REPO=$W ./check $prop --jobs "${JOBS:-4}" 2>&1); RC=$?
   L=$(echo "$O" | grep -E "^C[0-9]+ tier")
-  echo "| $c | $prop | $RC | $(echo $L | sed 's/.*violations=\([0-9]*\).*/\1/') | $(git -C /repo log -1 --format=%s $c | cut -c1-90) |" | tee $R/$prop-$c
+  echo "| $c | $prop | $RC | $(echo $L | sed 's/.*violations=\([0-9]*\).*/\1/') | $(git -C /repo log -1 --format=%s $c | cut -c1-90)$NOTE |" | tee $R/$prop-$c
   git -C /repo worktree remove --force $W; rm -rf $W-dll
 }
 export -f one
